@@ -216,13 +216,26 @@ pub fn run(cfg: &Cfg) -> i32 {
         let spec = gen_spec(&mut r);
         let hello = spec.render();
         rep.case(Some(&hello));
+        // now and then another session of the same process (same thread) has just had a request
+        // refused locally - a fragment containing the end-of-message delimiter. Establishment
+        // depends on the server's hello, not on what this process did before
+        if idx % 25 == 7 {
+            use netconf::message::rpc::operation::{Builder, Filter, Get};
+            let mut other = sess::establish_ok(memwire::ALL_CAPS);
+            let refused = crate::sched::drive(other.session.rpc::<Get, _>(|b| b.filter(Some(Filter::Subtree("<x><!-- ]]>]]> --></x>".to_string()))).finish()), 64);
+            match refused {
+                Some(Err(_)) => rep.count("establishments_after_a_locally_refused_request_on_the_same_thread"),
+                Some(Ok(_)) => rep.count("establishments_after_a_request_that_was_expected_to_be_refused_but_was_sent"),
+                None => rep.count("establishments_after_a_request_left_pending"),
+            }
+        }
         // order A: server hello already there when the client starts
         let a = sess::establish(&hello);
         // order B: client hello blocked on the wire until after the server hello was consumed,
         // and C: server hello delivered only after the client's hello went out
         let plan = Plan {
             first: vec![], late: 0, block_sends: vec![0], block_after_write: vec![], yield_between: false, hello_preloaded: false,
-            extra: vec![], drops: 0, hello: hello.clone(), reply_pad: vec![], fail_after_write: vec![],
+            extra: vec![], drops: 0, hello: hello.clone(), reply_pad: vec![], fail_after_write: vec![], charref_ids: false,
         };
         // actions offered at the choice point: Poll / DeliverHello / Release in this order; choose
         // DeliverHello first (B), or Release first (C)
